@@ -85,6 +85,7 @@ class C18(core.Property):
         ops = []
         ts_pool = [(rng.choice([0, 1, 5, 5, 9]), rng.choice([0, 0, 1, 2])) for _ in range(6)]
         used = set()
+        clones = []
         for _ in range(ln):
             r = rng.randrange(n)
             k = rng.random()
@@ -104,11 +105,18 @@ class C18(core.Property):
                 ops.append(["oadd", r, rng.randrange(3)])
             elif k < 0.68:
                 ops.append(["orem", r, rng.randrange(3)])
-            elif k < 0.95:
-                s = rng.randrange(n)
-                ops.append(["merge", r, s])
-            else:
+            elif k < 0.92:
+                s = rng.randrange(n if not clones else n + len(clones)) if rng.random() < 0.8 else rng.randrange(n)
+                d = r if not clones or rng.random() < 0.6 else rng.choice(clones)
+                ops.append(["merge", d, s])
+            elif k < 0.96:
                 ops.append(["roundtrip", r])
+            elif len(clones) < 3:
+                # a copy of replica r restored from its serialised state: same node id, separate object
+                # (crash recovery from a snapshot / a store key materialised from a peer's state); it only merges
+                c = n + len(clones)
+                clones.append(c)
+                ops.append(["clone", c, r])
         return {"family": "crdt", "n": n, "ops": ops}
 
     # ------------------------------------------------------------------ implementation
@@ -170,9 +178,9 @@ class C18(core.Property):
 
         n = case["n"]
         ids = [str(i) for i in range(n)]
-        pn = [PNCounter(i) for i in ids]
-        lw = [LWWRegister(i) for i in ids]
-        os_ = [ORSet(i) for i in ids]
+        pn = {i: PNCounter(ids[i]) for i in range(n)}
+        lw = {i: LWWRegister(ids[i]) for i in range(n)}
+        os_ = {i: ORSet(ids[i]) for i in range(n)}
         out = []
         for op in case["ops"]:
             kind, r = op[0], op[1]
@@ -192,6 +200,11 @@ class C18(core.Property):
                 pn[r].merge(pn[s])
                 lw[r].merge(lw[s])
                 os_[r].merge(os_[s])
+            elif kind == "clone":
+                src = op[2]
+                pn[r] = PNCounter.from_dict(pn[src].to_dict())
+                lw[r] = LWWRegister.from_dict(lw[src].to_dict())
+                os_[r] = ORSet.from_dict(os_[src].to_dict())
             elif kind == "roundtrip":
                 pn[r] = PNCounter.from_dict(pn[r].to_dict())
                 lw[r] = LWWRegister.from_dict(lw[r].to_dict())
@@ -211,7 +224,7 @@ class C18(core.Property):
         live = sorted(int(e) * 10**9 + int(t[0]) * 10**6 + t[1] for e, tags in od["entries"].items() for t in tags)
         dead = sorted(int(t[0]) * 10**6 + t[1] for t in od.get("tombstones", []))
         j = lambda xs: " ".join(str(x) for x in xs)
-        return f"r {r} pn {pn.value} P {P} N {N} | lww {lww} | os {od['seq']} E {j(elems)} T {j(live)} D {j(dead)}"
+        return f"r {r} pn {pn.value} P {P} N {N} | lww {lww} | os E {j(elems)} T {j(live)} D {j(dead)}"
 
     # ------------------------------------------------------------------ model / judge
     def model_block(self, case, variant):
@@ -219,7 +232,9 @@ class C18(core.Property):
             return (f"clocks {case['n']}", [" ".join(map(str, e)) for e in case["events"]])
         body = []
         for op in case["ops"]:
-            if op[0] == "roundtrip":
+            if op[0] == "clone":
+                body.append(f"merge {op[1]} {op[2]}")  # model: a fresh replica that merges r is a copy of r
+            elif op[0] == "roundtrip":
                 body.append(f"merge {op[1]} {op[1]}")  # model: serialisation round trip is the identity
             else:
                 body.append(" ".join(map(str, op)))
@@ -240,7 +255,8 @@ class C18(core.Property):
         if len(ops) != len(impl_out):
             return None
         for op, line in zip(ops, impl_out):
-            o = f"merge {op[1]} {op[1]}" if op[0] == "roundtrip" else " ".join(map(str, op))
+            o = (f"merge {op[1]} {op[1]}" if op[0] == "roundtrip" else
+                 f"merge {op[1]} {op[2]}" if op[0] == "clone" else " ".join(map(str, op)))
             # skip ops the model treats as no-ops with k = 0 (never generated)
             pn_part, lww_part, os_part = line.split(" | ")
             value = pn_part.split()[3]
